@@ -123,7 +123,7 @@ func genFuzz(g *genCtx) {
 	for _, tn := range typeNames {
 		nimg := 1
 		if g.thorough() {
-			nimg = 4
+			nimg = 16
 		}
 		for it := 0; it < nimg; it++ {
 			a := defaultAssign(r, tn, true)
@@ -207,7 +207,7 @@ func genFuzz(g *genCtx) {
 		}
 		nr := 150
 		if g.thorough() {
-			nr = 4000
+			nr = 15000
 		}
 		for i := 0; i < nr; i++ {
 			L := r.Intn(40)
@@ -234,7 +234,7 @@ func genFuzz(g *genCtx) {
 	// unstructured octets into every PDU decoder
 	nr := 10
 	if g.thorough() {
-		nr = 300
+		nr = 2000
 	}
 	for _, tn := range typeNames {
 		for i := 0; i < nr; i++ {
